@@ -481,7 +481,7 @@ pub fn run(ctx: &mut Ctx) {
 
 pub fn replay(ctx: &mut Ctx, d: &J) -> Option<()> {
     if d.get("at_exit").is_some() {
-        // (re-run as a whole by the check itself)
+        super::rerun_fixed(ctx);
         return Some(());
     }
     if let Some(label) = jstr(d, "extreme") {
